@@ -808,7 +808,7 @@ impl Monitor for FcbMonitor {
                 viol(
                     "fcb.retry",
                     "too-many-transmissions",
-                    format!("{:?} request to #{da} transmitted {} times without any reply (max_retry_limit {})", svc, p.unanswered, retry_limit),
+                    format!("{:?} request to #{da} transmitted {} times without an (acceptable) answer (max_retry_limit {})", svc, p.unanswered, retry_limit),
                 );
                 return;
             }
@@ -855,7 +855,12 @@ impl Monitor for FcbMonitor {
                     let Some(k) = d.index_of_addr(*addr) else { continue };
                     let pp = &mut self.per[k];
                     pp.outstanding = false;
-                    pp.unanswered = 0;
+                    // Set_Prm and Chk_Cfg are acknowledged by a short confirmation and by nothing
+                    // else: any other reply leaves the request unanswered
+                    let no_ack = matches!(pp.last.as_ref().map(|l| l.svc), Some(Service::SetPrm) | Some(Service::ChkCfg)) && !matches!(frame, Frame::Sc);
+                    if !no_ack {
+                        pp.unanswered = 0;
+                    }
                     if let Some(l) = pp.last.as_mut() {
                         l.any_reply = true;
                         if clearly_acceptable(l.svc, frame) {
